@@ -1,12 +1,12 @@
 (* Heap/Witness.v — witness of C12_steady_state_refuted: the H2 event log of the real VM for the program below
-   (global initialisation, then samples 0, 1, 2).  checks/C12.py re-runs the SOURCE on the real VM on every run and
-   compares the log with the tuples of this file, so the witness is a trace of the CURRENT implementation. *)
+   (global initialisation, then samples 0, 1, 2): a top-level function used as a value is wrapped in a closure, cloned
+   for the call (CloneHeap) and never released (known finding F22).  checks/C12.py re-runs the SOURCE on the real VM
+   on every run and compares the log with the tuples of this file, so the witness is a trace of the CURRENT
+   implementation.  Regenerate with corpus/C12/fix_candidates/gen_witnesses.py. *)
 (* SOURCE
-fn dsp(){
-    let x = 9.0
-    let f = | | { x - 5.0 }
-    f()
-}
+fn ap(f:(float)->float, y:float){ f(y) }
+fn nm(z:float){ z*2.0 }
+fn dsp(){ ap(nm, 2.0) }
 END SOURCE *)
 From Coq Require Import List NArith.
 From Mimium Require Import Heap.Model.
@@ -25,66 +25,75 @@ Definition w_p1_raw : list (N * N * N * N) :=
   [(37, 2, 0, 0);
    (16, 1, 1, 1);
    (0, 1, 1, 1);
+   (35, 1, 1, 0);
    (5, 1, 1, 1);
-   (20, 1, 1, 1);
-   (20, 1, 1, 1);
-   (42, 0, 0, 0);
+   (1, 1, 1, 2);
+   (17, 1, 1, 2);
    (36, 1, 1, 0);
-   (5, 1, 1, 1);
+   (5, 1, 1, 2);
    (34, 1, 1, 0);
-   (20, 1, 1, 1);
-   (20, 1, 1, 1);
-   (20, 1, 1, 1);
-   (22, 1, 1, 1);
+   (20, 1, 1, 2);
+   (20, 1, 1, 2);
+   (20, 1, 1, 2);
+   (22, 1, 1, 2);
+   (5, 1, 1, 2);
+   (20, 1, 1, 2);
+   (42, 0, 0, 0);
+   (42, 0, 0, 0);
    (42, 0, 1, 0);
    (33, 1, 1, 0);
-   (20, 1, 1, 1);
-   (2, 1, 1, 0);
-   (3, 1, 1, 0)].
+   (20, 1, 1, 2);
+   (2, 1, 1, 1)].
 Definition w_p1 : list event := decode w_p1_raw.
 
 Definition w_p2_raw : list (N * N * N * N) :=
   [(37, 2, 0, 0);
    (16, 2, 1, 1);
-   (0, 1, 3, 1);
-   (5, 1, 3, 1);
-   (20, 2, 1, 1);
-   (20, 2, 1, 1);
-   (42, 0, 0, 0);
-   (36, 3, 1, 0);
-   (5, 1, 3, 1);
+   (0, 2, 1, 1);
+   (35, 1, 2, 0);
+   (5, 2, 1, 1);
+   (1, 2, 1, 2);
+   (17, 2, 1, 2);
+   (36, 1, 2, 0);
+   (5, 2, 1, 2);
    (34, 2, 1, 0);
-   (20, 2, 1, 1);
-   (20, 2, 1, 1);
-   (20, 2, 1, 1);
-   (22, 2, 1, 1);
+   (20, 2, 1, 2);
+   (20, 2, 1, 2);
+   (20, 2, 1, 2);
+   (22, 2, 1, 2);
+   (5, 2, 1, 2);
+   (20, 2, 1, 2);
+   (42, 0, 0, 0);
+   (42, 0, 0, 0);
    (42, 0, 1, 0);
-   (33, 1, 3, 0);
-   (20, 2, 1, 1);
-   (2, 1, 3, 0);
-   (3, 1, 3, 0)].
+   (33, 2, 1, 0);
+   (20, 2, 1, 2);
+   (2, 2, 1, 1)].
 Definition w_p2 : list event := decode w_p2_raw.
 
 Definition w_p3_raw : list (N * N * N * N) :=
   [(37, 2, 0, 0);
    (16, 3, 1, 1);
-   (0, 1, 5, 1);
-   (5, 1, 5, 1);
-   (20, 3, 1, 1);
-   (20, 3, 1, 1);
-   (42, 0, 0, 0);
-   (36, 5, 1, 0);
-   (5, 1, 5, 1);
+   (0, 3, 1, 1);
+   (35, 1, 3, 0);
+   (5, 3, 1, 1);
+   (1, 3, 1, 2);
+   (17, 3, 1, 2);
+   (36, 1, 3, 0);
+   (5, 3, 1, 2);
    (34, 3, 1, 0);
-   (20, 3, 1, 1);
-   (20, 3, 1, 1);
-   (20, 3, 1, 1);
-   (22, 3, 1, 1);
+   (20, 3, 1, 2);
+   (20, 3, 1, 2);
+   (20, 3, 1, 2);
+   (22, 3, 1, 2);
+   (5, 3, 1, 2);
+   (20, 3, 1, 2);
+   (42, 0, 0, 0);
+   (42, 0, 0, 0);
    (42, 0, 1, 0);
-   (33, 1, 5, 0);
-   (20, 3, 1, 1);
-   (2, 1, 5, 0);
-   (3, 1, 5, 0)].
+   (33, 3, 1, 0);
+   (20, 3, 1, 2);
+   (2, 3, 1, 1)].
 Definition w_p3 : list event := decode w_p3_raw.
 
 Definition witness_trace : list event := w_prefix ++ w_p1 ++ w_p2 ++ w_p3.
@@ -98,13 +107,13 @@ Lemma steady_state_refuted :
   exists (prefix p1 p2 p3 : list event),
     balanced (prefix ++ p1 ++ p2 ++ p3) = true
     /\ map shape p1 = map shape p2 /\ map shape p2 = map shape p3
-    /\ (exists m, mrun mach_new (prefix ++ p1) = Some m /\ live_count m SC = 1)
-    /\ (exists m, mrun mach_new (prefix ++ p1 ++ p2) = Some m /\ live_count m SC = 2)
-    /\ (exists m, mrun mach_new (prefix ++ p1 ++ p2 ++ p3) = Some m /\ live_count m SC = 3).
+    /\ (exists m, mrun mach_new (prefix ++ p1) = Some m /\ live_count m SC = 1 /\ live_count m SH = 1)
+    /\ (exists m, mrun mach_new (prefix ++ p1 ++ p2) = Some m /\ live_count m SC = 2 /\ live_count m SH = 2)
+    /\ (exists m, mrun mach_new (prefix ++ p1 ++ p2 ++ p3) = Some m /\ live_count m SC = 3 /\ live_count m SH = 3).
 Proof.
   exists w_prefix, w_p1, w_p2, w_p3.
   split; [vm_compute; reflexivity|].
   split; [vm_compute; reflexivity|].
   split; [vm_compute; reflexivity|].
-  split; [|split]; eexists; (split; [vm_compute; reflexivity|vm_compute; reflexivity]).
+  split; [|split]; eexists; (split; [vm_compute; reflexivity|split; vm_compute; reflexivity]).
 Qed.
